@@ -880,6 +880,102 @@ def r09g(ctx):
                f'fails with a mask / weight shape mismatch)', where(afc, node))
 
 
+def r09h(ctx, rule='R09h'):
+    """The analysis graph has an edge for every operand: fx_to_nx_graph is interpreted on a small
+    fx graph whose concatenation takes its tensors inside a tuple (``torch.cat((a, b), 2)``) and
+    whose output is a tuple; every (input node, node) pair of fx's own ``all_input_nodes`` must be
+    an edge -- the width-sharing components (residual sums, time-axis concatenations, output
+    ties) are computed on this graph."""
+    from ..mini import Mini, Obj, Raised, Token, Unsupported
+    repo = ctx.repo
+    fn = repo.fn('graph.utils.fx_to_nx_graph')
+    NODE = Token('cls:Node')
+
+    def node(name, args, kwargs=None):
+        o = Obj('Node')
+        flat = []
+
+        def walk(x):
+            if isinstance(x, Obj):
+                flat.append(x)
+            elif isinstance(x, (tuple, list)):
+                for y in x:
+                    walk(y)
+            elif isinstance(x, dict):
+                for y in x.values():
+                    walk(y)
+        walk(args)
+        walk(kwargs or {})
+        o.attrs.update({'name': name, 'args': args, 'kwargs': kwargs or {},
+                        'all_input_nodes': flat, 'op': 'call_function', '_cls': NODE})
+        return o
+    x = node('x', ())
+    a, b = node('a', (x,)), node('b', (x,))
+    cat = node('cat', ((a, b), 2))
+    c = node('c', (cat,), {'other': b})
+    out = node('output', ((c, cat),))
+    nodes = [x, a, b, cat, c, out]
+    edges = []
+
+    class _N(Mini):
+        def expr(self, e, env):
+            if isinstance(e, ast.Attribute):
+                o = self.expr(e.value, env)
+                if isinstance(o, Obj):
+                    if e.attr in o.attrs:
+                        return o.attrs[e.attr]
+                    return ('boundmethod', o, e.attr)
+                return ('boundmethod', o, e.attr)
+            return super().expr(e, env)
+
+        def builtin(self, name, args, kwargs, node_):
+            if name == 'isinstance':
+                cs = args[1] if isinstance(args[1], tuple) and not (
+                    len(args[1]) == 3 and args[1][0] == 'boundmethod') else (args[1],)
+                if NODE in cs:
+                    return isinstance(args[0], Obj) and args[0].attrs.get('_cls') == NODE
+            return super().builtin(name, args, kwargs, node_)
+
+        def method(self, o, name, args, kwargs, node_):
+            if isinstance(o, Obj) and o.cls_name == 'DiGraph':
+                if name == 'add_edge':
+                    edges.append((args[0], args[1]))
+                    return None
+                if name == 'add_edges_from':
+                    for u, v in self.iterate(args[0]):
+                        edges.append((u, v))
+                    return None
+                if name == 'add_node':
+                    return None
+                if name == 'add_nodes_from':
+                    return None
+            if isinstance(o, dict) and name in ('values', 'items', 'keys'):
+                return list(getattr(o, name)())
+            return super().method(o, name, args, kwargs, node_)
+    nxp, fxp = Obj('pkg'), Obj('pkg')
+    nxp.attrs['DiGraph'] = Token('DiGraph', lambda *a_: Obj('DiGraph'))
+    fxp.attrs['Node'] = NODE
+    graph = Obj('Graph')
+    graph.attrs['nodes'] = nodes
+    try:
+        _N({'nx': nxp, 'fx': fxp}).call_function(fn.node, [graph])
+    except (Unsupported, Raised) as ex:
+        raise AnalysisError(f'{rule}: fx_to_nx_graph is outside the interpreted subset: {ex}')
+    want = {(i.attrs['name'], n.attrs['name']) for n in nodes for i in n.attrs['all_input_nodes']}
+    got = {(u.attrs['name'], v.attrs['name']) for u, v in edges
+           if isinstance(u, Obj) and isinstance(v, Obj)}
+    missing, extra = sorted(want - got), sorted(got - want)
+    ok = not missing and not extra
+    ctx.ob(rule, 'fx_to_nx_graph has an edge for every operand', ok,
+           f'{len(want)} edges, operands nested in tuples and keyword operands included' if ok
+           else (f'missing edges {missing}' if missing else '') +
+           (f' spurious edges {extra}' if extra else '') +
+           ': operands passed inside a tuple / list (torch.cat((a, b), 2), a tuple output) are '
+           'not connected, so the branches of a time-axis concatenation get independent maskers '
+           'and the consumer sees a width that is not the one of the tensor feeding it',
+           where(fn))
+
+
 def r09f(ctx, rule='R09f'):
     """The graph classification and the layer classes agree on what a depthwise layer is: a
     PIT layer class whose export() has a depthwise branch (it re-creates the layer with
@@ -934,6 +1030,7 @@ def run(ctx):
     r09e(ctx)
     r09f(ctx)
     r09g(ctx)
+    r09h(ctx)
     ctx.assume('torch.cat keeps the order of its inputs; buffers registered under distinct names '
                'are distinct state')
 
